@@ -21,6 +21,9 @@ CONSTANTS Series,      \* subset of {"a","b"}
           FirstT,      \* time of the slot before the first possible sample
           MaxT,        \* last sample time
           Kinds,       \* subset of {"f","n","i","sf","h","sh"}
+          RunGaps,     \* AppendRun: spacings of a run of equally spaced samples
+          RunLens,     \* AppendRun: number of samples of a run
+          MaxRuns,     \* runs per series
           Sels,        \* sets of series selected by the matchers
           Offs, Ats,   \* selector offsets / @ modifiers
           Ranges,      \* range selector durations
@@ -29,9 +32,9 @@ CONSTANTS Series,      \* subset of {"a","b"}
           SqRanges, SqSteps, SqOffs, SqAts,
           MaxWraps     \* bound on Wrap* actions per expression
 
-VARIABLES store, expr, stage, nwr
+VARIABLES store, expr, stage, nwr, nruns
 
-bvars == <<store, expr, stage, nwr>>
+bvars == <<store, expr, stage, nwr, nruns>>
 
 None == [k |-> "none"]
 SBase(s) == IF s = "a" THEN 10 ELSE 20
@@ -50,6 +53,7 @@ BuildInit == /\ store = [s \in Series |-> <<>>]
              /\ expr = None
              /\ stage = "data"
              /\ nwr = 0
+             /\ nruns = 0
 
 \* storage.Appender.Append / AppendHistogram; series are filled in name order (appends to
 \* different series commute)
@@ -61,39 +65,54 @@ AppendSample(s, dt, kd) ==
          t == last + dt IN
      /\ t <= MaxT
      /\ store' = [store EXCEPT ![s] = Append(@, SampleOf(s, Len(@) + 1, t, kd))]
+  /\ UNCHANGED <<expr, stage, nwr, nruns>>
+
+\* a burst of n equally spaced appends: lets the sample density change along a series (sparse ->
+\* dense -> sparse ...), with enough samples per window to make the sampleRing of
+\* storage.BufferedSeriesIterator (initial capacity 16, doubled when full) wrap around and grow
+AppendRun(s, dt, n, kd) ==
+  /\ stage = "data" /\ nruns < MaxRuns
+  /\ LET last == IF store[s] = <<>> THEN FirstT ELSE store[s][Len(store[s])].t
+         prevGap == IF Len(store[s]) < 2 THEN 0 ELSE last - store[s][Len(store[s]) - 1].t
+         base == Len(store[s]) IN
+     /\ dt # prevGap                                  \* the density changes from run to run
+     /\ last + n * dt <= MaxT
+     /\ store' = [store EXCEPT ![s] = @ \o [j \in 1..n |-> SampleOf(s, base + j, last + j * dt, kd)]]
+  /\ nruns' = nruns + 1
   /\ UNCHANGED <<expr, stage, nwr>>
 
 Seal == /\ stage = "data"
         /\ \E s \in Series : store[s] # <<>>
         /\ stage' = "query"
-        /\ UNCHANGED <<store, expr, nwr>>
+        /\ UNCHANGED <<store, expr, nwr, nruns>>
 
 MkVS(sel, off, at) ==
   /\ stage = "query" /\ expr = None
   /\ expr' = [k |-> "vs", sel |-> sel, off |-> off, at |-> at]
-  /\ UNCHANGED <<store, stage, nwr>>
+  /\ UNCHANGED <<store, stage, nwr, nruns>>
 
 WrapRange(r) ==
   /\ stage = "query" /\ expr.k = "vs" /\ nwr < MaxWraps
   /\ expr' = [k |-> "ms", vs |-> expr, r |-> r]
   /\ nwr' = nwr + 1
-  /\ UNCHANGED <<store, stage>>
+  /\ UNCHANGED <<store, stage, nruns>>
 
 WrapCall(f) ==
   /\ stage = "query" /\ expr # None /\ nwr < MaxWraps
   /\ IF f = "timestamp" THEN ExprType(expr) = "vector" ELSE ExprType(expr) = "matrix"
   /\ expr' = [k |-> "call", f |-> f, arg |-> expr]
   /\ nwr' = nwr + 1
-  /\ UNCHANGED <<store, stage>>
+  /\ UNCHANGED <<store, stage, nruns>>
 
 WrapSub(r, st, off, at) ==
   /\ stage = "query" /\ expr # None /\ nwr < MaxWraps
   /\ ExprType(expr) = "vector"
   /\ expr' = [k |-> "sq", e |-> expr, r |-> r, st |-> st, off |-> off, at |-> at]
   /\ nwr' = nwr + 1
-  /\ UNCHANGED <<store, stage>>
+  /\ UNCHANGED <<store, stage, nruns>>
 
 BuildNext == \/ \E s \in Series, dt \in Gaps, kd \in Kinds : AppendSample(s, dt, kd)
+             \/ \E s \in Series, dt \in RunGaps, n \in RunLens, kd \in Kinds : AppendRun(s, dt, n, kd)
              \/ Seal
              \/ \E sel \in Sels, off \in Offs, at \in Ats : MkVS(sel, off, at)
              \/ \E r \in Ranges : WrapRange(r)
